@@ -15,7 +15,25 @@ Partners(op, a, b) == { H(o, a, b) : o \in OpsAll } \cup { H(op, x, b) : x \in O
 P(kind, a, b) == [kind |-> kind, a |-> a, b |-> b]
 Pairs == UNION { { P(IF NfEq(H(op, a, b), u) = "yes" THEN "conv-yes" ELSE "conv-no", H(op, a, b), u) : u \in { x \in Partners(op, a, b) : NfEq(H(op, a, b), x) # "fuel" } }
                  : <<op, a, b>> \in OpsAll \X Operands \X Operands }
+\* conversion has to look BELOW the head of a neutral term: the argument of an unknown function, the condition of a stuck
+\* conditional (itself an application of an unknown function, or a comparison with the bound variable), a stuck negation; and a
+\* stuck negation is not its operand
+Arrow(a, b) == Binder("pi", "?", FALSE, a, b)
+Es == {L(3), L(4), Bin("sum", L(1), L(2)), Bin("sum", L(2), L(1)), Bin("prod", L(2), L(2)), Bin("diff", L(4), L(1))}
+N1(e) == Binder("lam", "?", FALSE, Arrow(TInt, TInt), App(Var(0), e))
+N2(e) == Binder("lam", "?", FALSE, Arrow(TInt, TBool), IfT(App(Var(0), e), L(1), L(2)))
+N3(e) == Binder("lam", "?", FALSE, TInt, IfT(Bin("lt", Var(0), e), L(1), L(2)))
+N4(e) == Binder("lam", "?", FALSE, TInt, NegT(Bin("sum", Var(0), e)))
+N5(e) == Binder("lam", "?", FALSE, Arrow(TInt, TInt), Bin("sum", App(Var(0), e), L(1)))
+N6(e) == Binder("lam", "?", FALSE, Arrow(TInt, Arrow(TInt, TInt)), App(App(Var(0), e), L(7)))
+Neutral(k, e) == CASE k = 1 -> N1(e) [] k = 2 -> N2(e) [] k = 3 -> N3(e) [] k = 4 -> N4(e) [] k = 5 -> N5(e) [] k = 6 -> N6(e)
+StuckNeg == { P("conv-no", Binder("lam", "?", FALSE, TInt, NegT(Var(0))), Binder("lam", "?", FALSE, TInt, Var(0))),
+              P("conv-no", Binder("lam", "?", FALSE, TInt, NegT(NegT(Var(0)))), Binder("lam", "?", FALSE, TInt, NegT(Var(0)))),
+              P("conv-no", Binder("lam", "?", FALSE, TInt, Bin("sum", NegT(Var(0)), L(1))), Binder("lam", "?", FALSE, TInt, Bin("sum", Var(0), L(1)))),
+              P("conv-yes", Binder("lam", "?", FALSE, TInt, NegT(Var(0))), Binder("lam", "?", FALSE, TInt, NegT(Var(0)))) }
+NeutralPairs == { P(IF NfEq(Neutral(k, e1), Neutral(k, e2)) = "yes" THEN "conv-yes" ELSE "conv-no", Neutral(k, e1), Neutral(k, e2)) : <<k, e1, e2>> \in (1..6) \X Es \X Es }
+                \cup StuckNeg
 Init == i = 0
 Next == i = 0 /\ i' = 1
-Emit == (i = 1) => \A p \in Pairs : PrintT(<<"PAIR", ToJson(p)>>)
+Emit == (i = 1) => \A p \in Pairs \cup NeutralPairs : PrintT(<<"PAIR", ToJson(p)>>)
 ====
